@@ -397,7 +397,8 @@ LEVEL_TEXT = (
     "pointer (who-may-write), cache-invalidation coverage, freshly-constructed-expression check at every _replace_expr "
     "call, distinct-copy check, and a def-use taint rule that no live dask_array.Array handle is captured by reference in a "
     "container operand at any of the expression construction sites (the rule that exposed three genuine defects, fixed in "
-    "/repo). Holds for all programs because the sites are enumerated exhaustively; NumPy-equality of the assigned values is not decided."
+    "/repo), plus writer/reader agreement between the assignment path's hand-built tasks and their kernels. Holds for all programs because the "
+    "sites are enumerated exhaustively; NumPy-equality of the assigned values is not decided."
 )
 LEVEL_NOTE = (
     "Trusted: CPython ast, the engine's class/MRO and construction-site resolution, flow-insensitive def-use slices. "
